@@ -287,6 +287,109 @@ let run_vmcli uuid opt sec cmd addr sess ops =
 let text_of (l : n list) : string = String.init (List.length l) (fun i -> Char.chr (int_of_n (List.nth l i) land 255))
 let bytes_of_text (s : string) : n list = List.init (String.length s) (fun i -> n_of_int (Char.code s.[i]))
 let bit b = if b then "1" else "0"
+
+(* ---------- C16, hand-written part: the text form of a VMess id, and the serde contract of the configuration object ----------
+   (Model/Config.v models the NAMES and what they select; the two functions below state, for the harness ops cfgvmid / cfgfield /
+   cfgraw, what the documentation and the serde derive contract say about everything around the names:
+   a VMess id is a UUID written as 32 hex digits, hyphenated 8-4-4-4-12, that in braces, or that behind "urn:uuid:";
+   keys of a JSON object are matched exactly, unknown keys are ignored, a key given twice is an error, a missing key is an error
+   unless the field has a default; a unit enum is a JSON string (or the one-entry object {"name": null}); Option<T> takes null;
+   String / u16 / Vec / map take exactly their own JSON type) *)
+let is_hexc c = match c with '0'..'9' | 'a'..'f' | 'A'..'F' -> true | _ -> false
+let uuid_hex (s : string) : string option =
+  let all_hex t = let ok = ref true in String.iter (fun c -> if not (is_hexc c) then ok := false) t; !ok in
+  let hyph t =
+    if String.length t = 36 && t.[8] = '-' && t.[13] = '-' && t.[18] = '-' && t.[23] = '-' then
+      let h = String.sub t 0 8 ^ String.sub t 9 4 ^ String.sub t 14 4 ^ String.sub t 19 4 ^ String.sub t 24 12 in
+      if all_hex h then Some h else None
+    else None in
+  match String.length s with
+  | 32 -> if all_hex s then Some s else None
+  | 36 -> hyph s
+  | 38 when s.[0] = '{' && s.[37] = '}' -> hyph (String.sub s 1 36)
+  | 45 when String.sub s 0 9 = "urn:uuid:" -> hyph (String.sub s 9 36)
+  | _ -> None
+let vmess_salt = List.map (fun c -> n_of_int (Char.code c)) (List.init 36 (String.get "c48619fe-8f02-49e0-b9e9-edf763e17e21"))
+
+let hex_text h = text_of (unhex h)
+let cfg_line (c : string option) (p : string) (m : string option) ssl ws quic users =
+  match q_object (Option.map bytes_of_text c) (bytes_of_text p) (Option.map bytes_of_text m) with
+  | Some ((c, p), m) -> Printf.sprintf "OK %s %s %s ssl=%s ws=%s quic=%s user=%d" (text_of c) (text_of p) (text_of m) (bit ssl) (bit ws) (bit quic) users
+  | None -> "ERR"
+let cfg_full ?(c = Some "aes-128-gcm") ?(p = "vmess") ?(m = Some "tcp_and_udp") ?(ssl = true) ?(ws = true) ?(quic = true) ?(users = 1) () =
+  cfg_line c p m ssl ws quic users
+(* the keys the harness writes into each object (harness/src/t1_config.rs full_object_json) *)
+let cfg_top = ["host"; "port"; "password"; "protocol"; "cipher"; "mode"; "ssl"; "ws"; "quic"; "user"]
+let cfg_sect_keys side sec = match sec with
+  | "ssl" -> if side = "server" then ["certificateFile"; "keyFile"; "serverName"] else ["certificateFile"; "serverName"]
+  | "quic" -> ["certificateFile"; "keyFile"; "serverName"]
+  | _ -> ["header"; "path"]
+let cfg_field side field sp =
+  match String.index_opt field '.' with
+  | None ->
+    if sp = field then cfg_full ()
+    else if List.mem sp cfg_top then "ERR"                       (* the same key twice *)
+    else (match field with
+        | "cipher" -> cfg_full ~c:None ()  | "mode" -> cfg_full ~m:None ()
+        | "ssl" -> cfg_full ~ssl:false () | "ws" -> cfg_full ~ws:false () | "quic" -> cfg_full ~quic:false ()
+        | "user" -> cfg_full ~users:0 ()
+        | _ -> "ERR")                                            (* host, port, password, protocol have no default *)
+  | Some i ->
+    let sec = String.sub field 0 i and k = String.sub field (i + 1) (String.length field - i - 1) in
+    if sp = k then cfg_full ()
+    else if List.mem sp (cfg_sect_keys side sec) then "ERR"
+    else if (sec = "ssl" || sec = "quic") && side = "server" then "ERR"   (* the server's section members have no default *)
+    else cfg_full ()
+let cfg_raw side field code =
+  let head, arg = match String.index_opt code ':' with
+    | Some i -> String.sub code 0 i, String.sub code (i + 1) (String.length code - i - 1) | None -> code, "" in
+  let name () = match head with "str" | "tag" -> Some (hex_text arg) | _ -> None in
+  let kvs () = List.filter_map (fun kv -> match String.index_opt kv '=' with
+      | Some i -> Some (String.sub kv 0 i, String.sub kv (i + 1) (String.length kv - i - 1)) | None -> None) (String.split_on_char ',' arg) in
+  (* Some present | None = error *)
+  let section sec : bool option =
+    match head with
+    | "null" -> Some false
+    | "obj" | "sec" ->
+      let kv = if head = "obj" then [] else kvs () in
+      let ok =
+        if sec = "ws" then
+          (match List.assoc_opt "path" kv with None | Some "s" -> true | _ -> false)
+          && (match List.assoc_opt "header" kv with None | Some "o" | Some "h" -> true | _ -> false)
+        else
+          List.for_all (fun k -> match List.assoc_opt k kv with
+              | Some "s" -> true
+              | None | Some "n" -> side <> "server"
+              | _ -> false) ["certificateFile"; "keyFile"; "serverName"] in
+      if ok then Some true else None
+    | _ -> None in
+  match field with
+  | "cipher" -> (match name () with Some n -> cfg_full ~c:(Some n) () | None -> "ERR")
+  | "protocol" -> (match name () with Some n -> cfg_full ~p:n () | None -> "ERR")
+  | "mode" -> (match name () with Some n -> cfg_full ~m:(Some n) () | None -> "ERR")
+  | "ssl" -> (match section "ssl" with Some b -> cfg_full ~ssl:b () | None -> "ERR")
+  | "ws" -> (match section "ws" with Some b -> cfg_full ~ws:b () | None -> "ERR")
+  | "quic" -> (match section "quic" with Some b -> cfg_full ~quic:b () | None -> "ERR")
+  | "user" ->
+    (match head with
+     | "arr" -> cfg_full ~users:0 ()
+     | "usr" ->
+       (match String.split_on_char ':' arg with
+        | [n; tn; tp] -> let n = int_of_string n in
+          if n = 0 then cfg_full ~users:0 () else if tn = "s" && tp = "s" then cfg_full ~users:n () else "ERR"
+        | _ -> "BAD-CASE")
+     | _ -> "ERR")
+  | "port" ->
+    (match head with
+     | "int" ->
+       let t = String.trim arg in
+       let digits = t <> "" && (let ok = ref true in String.iter (fun c -> if c < '0' || c > '9' then ok := false) t; !ok) in
+       let canonical = digits && (t = "0" || t.[0] <> '0') in
+       if canonical && String.length t <= 5 && int_of_string t <= 65535 then cfg_full () else "ERR"
+     | _ -> "ERR")
+  | "host" | "password" -> (match head with "str" -> cfg_full () | _ -> "ERR")
+  | _ -> "BAD-CASE"
+
 (* ---------- adapters: the WebSocketFramed model (Lib/WsFramed.v) message by message ----------
    script entries: D<hex> / T<hex> data message (D- empty), P<hex> control message.
    output = the canonical field of harness component `adapters`. *)
@@ -431,6 +534,11 @@ let run_case (fields : string list) : string =
      | Ok (rest, Some (p, a)) -> Printf.sprintf "OK rest=%d %s:%s" (List.length rest) (addr_str a) (hx p)
      | Ok (rest, None) -> Printf.sprintf "OK rest=%d none" (List.length rest)
      | Err e -> "ERR " ^ string_of_err e | Panic -> "PANIC")
+  | "s5udpo" :: d :: _ ->
+    (match s5_udp_decode (unhex d) with
+     | Ok (rest, Some (p, a)) -> Printf.sprintf "OK [%s:%s] rest=%d" (addr_str a) (hx p) (List.length rest)
+     | Ok (rest, None) -> Printf.sprintf "OK [] rest=%d" (List.length rest)
+     | Err e -> "ERR " ^ string_of_err e ^ " []" | Panic -> "PANIC")
   | "s5udpenc" :: a :: p :: _ -> "OK " ^ hx (s5_udp_encode (unhex p) (parse_addr a))
   | "http" :: m :: t :: _ ->
     (match recognize_http (unhex m) (unhex t) with
@@ -498,6 +606,12 @@ let run_case (fields : string list) : string =
   | "cfgvmess" :: nt :: variant :: _ ->
     (match q_vmess (bytes_of_text nt) (bytes_of_text variant) with
      | Some (VSecurity _) -> "OK" | Some VRefused -> "ERR" | Some VUnchecked -> "UNCHECKED" | None -> "MODEL-UNKNOWN-VARIANT")
+  | "cfgvmid" :: pw :: _ ->
+    (match uuid_hex (hex_text pw) with
+     | Some h -> "OK " ^ hx (prims.p_md5 (bytes_of_hex h @ vmess_salt))
+     | None -> "ERR")
+  | "cfgfield" :: side :: field :: sp :: _ -> cfg_field side field (hex_text sp)
+  | "cfgraw" :: side :: field :: code :: _ -> cfg_raw side field code
   | "sstcp" :: kind :: key :: ikeys :: users :: mode :: salt :: addr :: now :: ops :: _ -> run_sstcp kind key ikeys users mode salt addr now ops
   | "s5enc" :: a :: _ -> let a = parse_addr a in Printf.sprintf "OK %s %d" (hx (s5_encode a)) (int_of_n (s5_length a))
   | "s5dec" :: b :: _ -> show_res (fun (a, rest) -> addr_str a ^ " " ^ hx rest) (s5_decode (unhex b))
